@@ -1286,6 +1286,13 @@ func c6Corpus() []*C6Case {
 		mk(3, C6Stage{Kind: "index", J: 0}, C6Stage{Kind: "reent", A: 0, B: 0, A2: 0, B2: 0, OLen: 5, J: 1}),
 		mk(40, C6Stage{Kind: "index", J: 7}, num, C6Stage{Kind: "reent", A: 2, B: 1, A2: 3, B2: 2, OLen: 6, J: 4}),
 		mk(13, C6Stage{Kind: "string"}, num, front, num),
+		// a MERGE result as the direct source of a map/accept that goes parallel, a closure-calling consumer behind it: less runs on
+		// the goroutine that feeds the workers, the consumer on the collector (seeded/C06-h: map/accept read "isolated" sources,
+		// merge results included, on the consumer's stack); less reads its second argument after the delay of h
+		mk(200, red, C6Stage{Kind: "merge", OLen: 50, ONum: true, OA: 3, OB: 1, Cost: "all"}, slow),
+		mk(200, C6Stage{Kind: "mapReduce", A: 3, B: 1, K: 1}, C6Stage{Kind: "merge", OLen: 40, ONum: true, OA: 2, OB: 1, Cost: "all"}, front),
+		mk(150, C6Stage{Kind: "visit", A: 1, B: 2, K: 4}, C6Stage{Kind: "merge", OLen: 30, Cost: "front"}, C6Stage{Kind: "accept", A: 1, B: 0, K: 3, Cost: "all"}),
+		mk(160, C6Stage{Kind: "string"}, C6Stage{Kind: "merge", OLen: 50, ONum: true, OA: 3, OB: 1, Cost: "all"}, slow, num),
 	}
 }
 
@@ -1408,13 +1415,19 @@ func c6BuildRace() string {
 		p2h, _ = os.Executable()
 	}
 	build := filepath.Dir(p2h)
-	bin := filepath.Join(build, "p2h-race")
+	// the check driver runs a private copy of the harness binary and hands over the module file it was built with
+	// (P2H_MODFILE): checks against different scratch trees may run side by side
+	bin := p2h + "-race"
+	modfile := os.Getenv("P2H_MODFILE")
+	if modfile == "" {
+		modfile = filepath.Join(build, "harness.mod")
+	}
 	cwd, _ := os.Getwd()
 	hdir := filepath.Join(cwd, "harness")
 	if _, err := os.Stat(filepath.Join(hdir, "c06.go")); err != nil {
 		fatal("c06: run from the framework root (harness sources not found in %s)", hdir)
 	}
-	cmd := exec.Command("go", "build", "-race", "-tags", "verif", "-modfile", filepath.Join(build, "harness.mod"), "-o", bin, ".")
+	cmd := exec.Command("go", "build", "-race", "-tags", "verif", "-modfile", modfile, "-o", bin, ".")
 	cmd.Dir = hdir
 	cmd.Env = append(os.Environ(), "CGO_ENABLED=1")
 	out, err := cmd.CombinedOutput()
